@@ -93,7 +93,8 @@ def _run_inline(chunk):
     return out
 
 
-CASE_BUDGET_S = float(os.environ.get('TTMC_CASE_BUDGET', '180'))
+def _budget():
+    return float(os.environ.get('TTMC_CASE_BUDGET', '180'))
 
 
 def _fork_run(chunk, budget):
@@ -149,15 +150,15 @@ def _fork_run(chunk, budget):
 def _run_chunk(chunk):
     if os.environ.get('TTMC_NO_FORK'):
         return _run_inline(chunk)
-    res = _fork_run(chunk, max(CASE_BUDGET_S, 30.0 * len(chunk)))
+    res = _fork_run(chunk, max(_budget(), 30.0 * len(chunk)))
     if res is not None:
         return res
     # something in this chunk hung or killed the process: isolate the culprit case by case
     out = []
     for item in chunk:
-        one = _fork_run([item], CASE_BUDGET_S)
+        one = _fork_run([item], _budget())
         if one is None:
-            out.append((item[0], item[1], None, 'TIMEOUT-OR-CRASH: the case did not return within %.0f s (or the process died) when run alone' % CASE_BUDGET_S))
+            out.append((item[0], item[1], None, 'TIMEOUT-OR-CRASH: the case did not return within %.0f s (or the process died) when run alone' % _budget()))
         else:
             out += one
     return out
@@ -247,6 +248,9 @@ def run_check(modname, tier, seed, limit=None, only_cls=None):
         gen = itertools.islice(gen, limit)
     chunk = getattr(mod, 'CHUNK', 64)
     nproc = min(NPROC, getattr(mod, 'MAX_PROCS', NPROC))
+    if 'TTMC_CASE_BUDGET' not in os.environ:
+        # inherited by the workers (watchdog per case); the thorough tiers hold much larger cases (history subtrees)
+        os.environ['TTMC_CASE_BUDGET'] = str(mod.CASE_BUDGET(tier) if hasattr(mod, 'CASE_BUDGET') else (180 if tier == 'quick' else 1200))
 
     for res in _parallel(modname, nproc, _chunks(gen, chunk), harness):
         for idx, case, r, err in res:
